@@ -615,7 +615,11 @@ func main() {
 		sort.Strings(rest)
 		e.sweepOnly = true
 		nsw := 0
+		inl := e.inlinedEverywhere()
 		for _, u := range rest {
+			if inl[e.fns[u]] && e.spec.Contracts[u] == nil {
+				continue // only ever called statically: checked in the context of each caller, where it is inlined
+			}
 			nerr := len(e.specErrs)
 			if err := e.verifyUnit(u); err != nil {
 				e.warnings = append(e.warnings, "sweep: "+u+" skipped: "+err.Error())
@@ -928,4 +932,58 @@ func readOnlyBody(fn *ssa.Function) bool {
 		}
 	}
 	return true
+}
+
+// inlinedEverywhere: uncontracted module functions small enough to be inlined whose every use is a static call
+// (never a go statement, never a function value, not an exported method that an interface could reach).
+func (e *Engine) inlinedEverywhere() map[*ssa.Function]bool {
+	called := map[*ssa.Function]bool{}
+	escaped := map[*ssa.Function]bool{}
+	for _, f := range e.fns {
+		for _, b := range f.Blocks {
+			for _, in := range b.Instrs {
+				var callee ssa.Value
+				switch x := in.(type) {
+				case *ssa.Call:
+					callee = x.Call.Value
+				case *ssa.Defer:
+					callee = x.Call.Value
+				}
+				for _, op := range in.Operands(nil) {
+					if op == nil || *op == nil {
+						continue
+					}
+					if g, ok := (*op).(*ssa.Function); ok {
+						if *op == callee {
+							called[g] = true
+						} else {
+							escaped[g] = true
+						}
+					}
+				}
+				if g, ok := in.(*ssa.Go); ok {
+					if t, ok := g.Call.Value.(*ssa.Function); ok {
+						escaped[t] = true
+					}
+				}
+			}
+		}
+	}
+	out := map[*ssa.Function]bool{}
+	for _, f := range e.fns {
+		if !called[f] || escaped[f] || f.Parent() != nil {
+			continue
+		}
+		if f.Signature.Recv() != nil && ast.IsExported(f.Name()) {
+			continue
+		}
+		n := 0
+		for _, b := range f.Blocks {
+			n += len(b.Instrs)
+		}
+		if n <= 400 {
+			out[f] = true
+		}
+	}
+	return out
 }
